@@ -15,6 +15,7 @@ import (
 var SlowMs = func() int { n, _ := strconv.Atoi(os.Getenv("GOSYM_SLOWMS")); return n }()
 
 var dumpN int
+var logN int
 
 type Result int
 
@@ -43,6 +44,16 @@ type Solver struct {
 	Log     io.Writer
 	nsent   int
 	TimeoutMs int
+}
+
+// DefaultZ3: the incremental bit-vector back end. z3 4.8.12 expands define-fun
+// macros pathologically on some sessions (minutes where 5.1.0 needs a second),
+// so the newer binary is preferred when present.
+func DefaultZ3() string {
+	if _, err := exec.LookPath("z3-new"); err == nil {
+		return "z3-new"
+	}
+	return "z3"
 }
 
 func argvFor(kind string, timeoutMs int) []string {
@@ -84,6 +95,12 @@ func (s *Solver) start() error {
 		return err
 	}
 	s.cmd, s.in, s.out = cmd, in, bufio.NewReaderSize(out, 1<<16)
+	if dir := os.Getenv("GOSYM_SOLVERLOG"); dir != "" && s.Log == nil {
+		logN++
+		if f, err := os.Create(fmt.Sprintf("%s/solver%d.smt2", dir, logN)); err == nil {
+			s.Log = f
+		}
+	}
 	s.done = map[uint32]bool{}
 	s.nsent = 0
 	s.send("(set-option :print-success false)\n")
